@@ -31,35 +31,37 @@ import (
 )
 
 type Work struct {
-	Elem      string `json:"elem"` // int64 | float64 | string | interface
-	Items     []int  `json:"items"`
-	Bufs      []int  `json:"bufs"`      // one per stage channel
-	Spawn     []int  `json:"spawn"`     // spawn-site variant per producer: 0 named, 1 anon, 2 arity>=5, 3 variadic
-	FwdForm   []int  `json:"fwd_form"`  // consumer form of each forwarding stage
-	ConsForm  int    `json:"cons_form"` // consumer form of the final consumer: 0 for-in, 1 ok-loop, 2 nil-loop
-	Sleep     bool   `json:"sleep"`
-	Epilogue  bool   `json:"epilogue"`
-	FwdSpawn  int    `json:"fwd_spawn"`
-	MutateArg bool   `json:"mutate_arg"`         // parent mutates the variable passed to go right after spawning
-	CtxMode   int    `json:"ctx_mode,omitempty"` // 0 simulated cancellable context, 1 context.Background()
-	Workers   int    `json:"workers,omitempty"`  // >1: the last channel is drained by a pool of this many goroutines (fan-out)
-	WorkForm  int    `json:"work_form,omitempty"`
-	ResBuf    int    `json:"res_buf,omitempty"`    // buffer of the pool's result channel (0 = 2)
-	AnonSend  bool   `json:"anon_send,omitempty"`  // sends go through an anonymous call site shared by several goroutines
-	Nils      bool   `json:"nils,omitempty"`       // interface channels also carry nil items
-	Scale     int64  `json:"scale,omitempty"`      // numeric items are multiplied by this (negative and large values; 0 = 1)
-	CapExpr   int    `json:"cap_expr,omitempty"`   // how buffer sizes are spelled: 0 literal, 1 `1 + 1`-style sum, 2 float literal
-	Helper    bool   `json:"helper,omitempty"`     // goroutines are started from inside helper functions that return at once (closures keep the helper's parameters)
-	DeferEnd  bool   `json:"defer_end,omitempty"`  // stages signal their end (close / done) from a deferred call
-	HostDrain int    `json:"host_drain,omitempty"` // 1: the script only starts the pipeline and returns its last channel, the host drains it after the run returned; 2: a second run on the same environment is the consumer
-	Prelude   bool   `json:"prelude,omitempty"`    // channels and producer functions are set up by an earlier run on the same environment whose context is cancelled once it has returned
-	TakeFirst int    `json:"take_first,omitempty"` // >0: the consumer first takes this many items with a for-in it leaves by break, then goes on with its usual loop
-	Rebind    bool   `json:"rebind,omitempty"`     // the names of started functions are rebound right after the go statement (the callee is evaluated by the caller, at the go statement)
-	Relay     bool   `json:"relay,omitempty"`      // (without a worker pool) one goroutine per item, all started on one parameterless function, moves the items from the last channel to `res`
-	TypeAlias bool   `json:"type_alias,omitempty"` // channels are made by a helper that names the element type locally (make(type El, sample)); the helper is first called for another element type
-	Dispatch  bool   `json:"dispatch,omitempty"`   // (without pool / relays) a for-in over the last channel starts one goroutine per item, passing the loop variable
-	Implicit  int    `json:"implicit,omitempty"`   // >0: a last hop written as the implicit relay `dst <- src` (one item of src is forwarded); 2: dst is a chan interface
-	Shadow    bool   `json:"shadow,omitempty"`     // outer variables named like the for-in loop variables exist (a for-in variable is a fresh binding per loop)
+	Elem       string `json:"elem"` // int64 | float64 | string | interface
+	Items      []int  `json:"items"`
+	Bufs       []int  `json:"bufs"`      // one per stage channel
+	Spawn      []int  `json:"spawn"`     // spawn-site variant per producer: 0 named, 1 anon, 2 arity>=5, 3 variadic
+	FwdForm    []int  `json:"fwd_form"`  // consumer form of each forwarding stage
+	ConsForm   int    `json:"cons_form"` // consumer form of the final consumer: 0 for-in, 1 ok-loop, 2 nil-loop
+	Sleep      bool   `json:"sleep"`
+	Epilogue   bool   `json:"epilogue"`
+	FwdSpawn   int    `json:"fwd_spawn"`
+	MutateArg  bool   `json:"mutate_arg"`         // parent mutates the variable passed to go right after spawning
+	CtxMode    int    `json:"ctx_mode,omitempty"` // 0 simulated cancellable context, 1 context.Background()
+	Workers    int    `json:"workers,omitempty"`  // >1: the last channel is drained by a pool of this many goroutines (fan-out)
+	WorkForm   int    `json:"work_form,omitempty"`
+	ResBuf     int    `json:"res_buf,omitempty"`     // buffer of the pool's result channel (0 = 2)
+	AnonSend   bool   `json:"anon_send,omitempty"`   // sends go through an anonymous call site shared by several goroutines
+	Nils       bool   `json:"nils,omitempty"`        // interface channels also carry nil items
+	Scale      int64  `json:"scale,omitempty"`       // numeric items are multiplied by this (negative and large values; 0 = 1)
+	CapExpr    int    `json:"cap_expr,omitempty"`    // how buffer sizes are spelled: 0 literal, 1 `1 + 1`-style sum, 2 float literal
+	Helper     bool   `json:"helper,omitempty"`      // goroutines are started from inside helper functions that return at once (closures keep the helper's parameters)
+	DeferEnd   bool   `json:"defer_end,omitempty"`   // stages signal their end (close / done) from a deferred call
+	HostDrain  int    `json:"host_drain,omitempty"`  // 1: the script only starts the pipeline and returns its last channel, the host drains it after the run returned; 2: a second run on the same environment is the consumer
+	Prelude    bool   `json:"prelude,omitempty"`     // channels and producer functions are set up by an earlier run on the same environment whose context is cancelled once it has returned
+	TakeFirst  int    `json:"take_first,omitempty"`  // >0: the consumer first takes this many items with a for-in it leaves by break, then goes on with its usual loop
+	Rebind     bool   `json:"rebind,omitempty"`      // the names of started functions are rebound right after the go statement (the callee is evaluated by the caller, at the go statement)
+	Relay      bool   `json:"relay,omitempty"`       // (without a worker pool) one goroutine per item, all started on one parameterless function, moves the items from the last channel to `res`
+	TypeAlias  bool   `json:"type_alias,omitempty"`  // channels are made by a helper that names the element type locally (make(type El, sample)); the helper is first called for another element type
+	Dispatch   bool   `json:"dispatch,omitempty"`    // (without pool / relays) a for-in over the last channel starts one goroutine per item, passing the loop variable
+	Implicit   int    `json:"implicit,omitempty"`    // >0: a last hop written as the implicit relay `dst <- src` (one item of src is forwarded); 2: dst is a chan interface
+	StructChan bool   `json:"struct_chan,omitempty"` // the stage channels are the channel fields of struct values made one after the other from one struct type (all unbuffered)
+	LateBind   bool   `json:"late_bind,omitempty"`   // a last forwarding goroutine is started from a function scope that is still empty; the channel it writes to is bound there afterwards
+	Shadow     bool   `json:"shadow,omitempty"`      // outer variables named like the for-in loop variables exist (a for-in variable is a fresh binding per loop)
 }
 
 type Prop struct{}
@@ -134,6 +136,13 @@ func (Prop) Gen(seed int64, tier string) *harness.Case {
 	}
 	w.TypeAlias = w.Elem != "interface" && r.Intn(4) == 0
 	w.Prelude = r.Intn(5) == 0
+	if !w.TypeAlias && r.Intn(6) == 0 {
+		w.StructChan = true
+		for i := range w.Bufs {
+			w.Bufs[i] = 0
+		}
+	}
+	w.LateBind = r.Intn(6) == 0
 	w.Rebind = r.Intn(3) == 0
 	if r.Intn(4) == 0 {
 		w.TakeFirst = 1 + r.Intn(1+maxN)
@@ -270,7 +279,7 @@ func (w *Work) unordered() bool { return w.Workers > 1 || w.relays() || w.dispat
 
 // switchConsumer: the final consumer is `switch <-ch { case a, b: ... }` in a counted loop (ConsForm 3).
 func (w *Work) switchConsumer() bool {
-	return w.ConsForm == 3 && w.Elem == "int64" && !w.Nils && w.Workers <= 1 && w.HostDrain != 1 && !w.Relay && !w.Dispatch && w.Implicit == 0
+	return w.ConsForm == 3 && w.Elem == "int64" && !w.Nils && w.Workers <= 1 && w.HostDrain != 1 && !w.Relay && !w.Dispatch && w.Implicit == 0 && !w.LateBind
 }
 
 // wantClasses is what the switch consumer must count.
@@ -357,8 +366,14 @@ func Render(w *Work) string {
 			fmt.Fprintf(&b, "ch%d = mkch(%s, %d)\n", i, sample, n)
 		}
 	}
+	if w.StructChan && !w.TypeAlias {
+		// each make of the struct type gives a value with a channel of its own
+		for i := range w.Bufs {
+			fmt.Fprintf(&b, "sc%d = make(struct { C chan %s, N int64 })\nch%d = sc%d.C\n", i, w.Elem, i, i)
+		}
+	}
 	for i, n := range w.Bufs {
-		if w.TypeAlias {
+		if w.TypeAlias || w.StructChan {
 			break
 		}
 		if n > 0 {
@@ -535,6 +550,12 @@ func Render(w *Work) string {
 		fmt.Fprintf(&b, "go func() {\nfor dv in %s { go handle(dv) }\nexited(\"%s\", cl%d)\nfor k = 0; k < %d; k++ { <-wd }\nclres = true\nclose(res)\n}()\n", last, last, stages-1, tot)
 		last = "res"
 	}
+	if w.LateBind {
+		// the goroutine is started first, from a function scope that holds nothing yet; the channel it forwards
+		// into is bound in that scope afterwards, and only then is the goroutine told to go on
+		fmt.Fprintf(&b, "lready = make(chan int64)\ncllt = false\nfunc latestage() {\ngo func() {\n<-lready\nfor lv in %s { lloc <- lv }\ncllt = true\nclose(lloc)\n}()\nlloc = make(chan %s, 1)\nlready <- 1\nreturn lloc\n}\nlt = latestage()\n", last, w.Elem)
+		last = "lt"
+	}
 	if w.Implicit > 0 {
 		tot := 0
 		for _, n := range w.Items {
@@ -596,6 +617,8 @@ func Render(w *Work) string {
 		// count-based loop: nothing to say about "ended before close"
 	} else if last == "rl" {
 		b.WriteString("exited(\"rl\", clrl)\n")
+	} else if last == "lt" {
+		b.WriteString("exited(\"lt\", cllt)\n")
 	} else if last == "res" {
 		b.WriteString("exited(\"res\", clres)\n")
 	} else {
@@ -774,6 +797,9 @@ func (Prop) Run(t *testing.T, c *harness.Case, verbose bool) *harness.Result {
 			hops += 2
 		}
 		if w.Implicit > 0 {
+			hops++
+		}
+		if w.LateBind {
 			hops++
 		}
 		budget := 1200*(total*hops+len(w.Items)+hops+w.Workers+2) + 8000
@@ -1225,6 +1251,16 @@ func (Prop) Shrink(c *harness.Case) []*harness.Case {
 	if w.Dispatch {
 		nw := cp()
 		nw.Dispatch = false
+		emit(nw)
+	}
+	if w.LateBind {
+		nw := cp()
+		nw.LateBind = false
+		emit(nw)
+	}
+	if w.StructChan {
+		nw := cp()
+		nw.StructChan = false
 		emit(nw)
 	}
 	if w.Implicit > 0 {
